@@ -8,17 +8,7 @@ def classify(case, kind):
     cls = set()
     if kind != "prop" or case.get("kind") != "check":
         return cls
-    diags = case.get("diagnostics", [])
-    label = case.get("label", "")
-    # the mutations a case went through: its label, or for a multi-fault mix the labels listed in `site`
-    muts = {label}
-    if label == "multi":
-        muts = {part.split("@")[0] for part in case.get("site", "").split("+") if part}
-    no_claim = {"x_cross_kind_dup", "x_dup_directive_def", "x_ext_without_original", "x_dup_dirarg_in_app",
-                "x_empty_object", "x_empty_union", "x_multi_schema",
-                "valid"}   # `valid` = a validity-preserving mutation (iface_null_strengthen) inside a mix
-    if not diags and "x_nested_type_recursion" in muts and muts <= (no_claim | {"x_nested_type_recursion"}):
-        cls.add("directive-recursion-through-nested-input-type-accepted")
+    # no behaviour of the current code is excluded any more: every failing case is a violation
     return cls
 
 
